@@ -47,7 +47,8 @@ FLAVOURS = {
 }
 SAN_ENV = {
     "ASAN_OPTIONS": "halt_on_error=0:detect_leaks=0:allocator_may_return_null=1:detect_stack_use_after_return=0:"
-                    "handle_segv=0:handle_sigbus=0:handle_sigfpe=0:handle_sigill=0:handle_abort=0:print_summary=0",
+                    "handle_segv=0:handle_sigbus=0:handle_sigfpe=0:handle_sigill=0:handle_abort=0:print_summary=0:"
+                    "suppress_equal_pcs=0",  # recover mode otherwise dies after 25 distinct reporting PCs
     "UBSAN_OPTIONS": "print_stacktrace=0:halt_on_error=0",
 }
 
